@@ -19,7 +19,7 @@ ASSUMPTIONS = ["frames with more than 4 cells: cell values pairwise different (p
                "frames with more than 4 cells: no cell value truncates to a numeric dimension item (confusion paths are explored on the small frames)"]
 OUTSIDE = ["CSV / Excel text round trips (compiled formatting and parsing concretise)", "more than 4 dimensions", "row/column permutations beyond reverse and rotation for frames with more than 4 rows",
            "items-only layouts whose value column precedes an unnamed dimension column (flodym stops scanning at the first non-dimension column: listed as known finding)"]
-VARIANTS = 'headerless frames (a data row as column names); permuted rows keeping or repeating integer row labels; nested item sets'
+VARIANTS = 'headerless frames (a data row as column names); permuted rows keeping or repeating integer row labels; nested item sets; an array of 182 x 182 entries; a NaN entry in exports'
 BOUNDS = {"quick": dict(dimsets=sorted(k for k in DIMSETS if k not in ("T3_r2_p2_e2", "r3_p2_e2")), layouts="index x dim_to_columns (name/letter) x header (names/letters/mixed/items) x value column name x single-item dims dropped x row reverse/rotate x column reverse",
                         sparse="arrays <= 4 cells"),
           "thorough": dict(dimsets=sorted(DIMSETS), layouts="as quick, all letter spellings of dim_to_columns, all row permutations for <= 4 rows", sparse="arrays <= 6 cells")}
